@@ -190,7 +190,8 @@ func (f *c19DocFix) digest() string {
 	f.x.NoErr(err, "ConflictedCount")
 	fmt.Fprintf(&sb, "docs=%d conflicted=%d;", n, c)
 	err = f.store.Iterate(func(doc did.Document, md resolver.DocumentMetadata) error {
-		b, _ := json.Marshal(doc)
+		var b []byte
+		c19x.Own(f.x, func() { b, _ = json.Marshal(doc) })
 		fmt.Fprintf(&sb, "%s v=%s h=%s deact=%v src=%v;", b, md.Hash, md.Hash, md.Deactivated, md.SourceTransactions)
 		return nil
 	})
@@ -288,7 +289,10 @@ func c19DocRun(x *h.Ctx, c c19DocCase) {
 
 func c19DocAPISide(x *h.Ctx, payload []byte) {
 	var doc did.Document
-	if json.Unmarshal(payload, &doc) == nil {
+	parsed := false
+	// the harness's own decoding (in production: the request binding of the vdr v1 API)
+	c19x.Own(x, func() { parsed = json.Unmarshal(payload, &doc) == nil })
+	if parsed {
 		x.Class("parsed-as-did-document")
 		self := c19SelfResolver{doc: &doc}
 		if verr := ManagedDocumentValidator(resolver.DIDServiceResolver{Resolver: self}).Validate(doc); verr != nil {
@@ -326,7 +330,9 @@ func c19DocConsumers(x *h.Ctx, f *c19DocFix, id did.DID, tx dag.Transaction) {
 			found = true
 		}
 		for _, vm := range doc.VerificationMethod {
-			_, _ = kr.ResolveKeyByID(vm.ID.String(), nil, rel)
+			if vm != nil {
+				_, _ = kr.ResolveKeyByID(vm.ID.String(), nil, rel)
+			}
 		}
 	}
 	if found {
